@@ -393,7 +393,16 @@ Fixpoint feed (m : mstate) (bl : list (bool * nat * content)) : mstate * list Z 
    Some st = early return *)
 Definition finish_size (m : mstate) : mstate * option Z :=
   match c_size cfg with
-  | None => (m, None)
+  | None =>
+    (* size unknown: the file ends where the data ended; zero bytes skipped at the end (EXTRACT_SPARSE)
+       are made part of the file *)
+    if (a_fd (ast m) && Nat.ltb (a_fdoff (ast m)) (a_off (ast m)))%bool then
+      let '(m, r) := sys m (CFtruncate (a_off (ast m))) in
+      match r with
+      | RErr _ => (close_fd m, Some ARCHIVE_FAILED)
+      | ROk _ => (m, None)
+      end
+    else (m, None)
   | Some fz =>
     if (negb (a_fd (ast m)) || Nat.eqb (a_fdoff (ast m)) fz)%bool then (m, None)
     else
